@@ -906,7 +906,7 @@ impl Gen {
                 if ret > 0 {
                     if self.rng.chance(1, 2) {
                         // max_slippage around spread / (return + spread), the quantity the contract compares
-                        if let Ok(r) = Decimal::checked_from_ratio(spread, ret + spread) {
+                        if let Ok(r) = Decimal::checked_from_ratio(spread, ret.saturating_add(spread)) {
                             let eps = Decimal::from_atomics(self.rng.range(0, 3) as u128, 18).unwrap();
                             let v = match self.rng.below(3) {
                                 0 => r,
